@@ -207,7 +207,8 @@ class Exec(ExprMixin):
                 self.side_raise(st, 'TypeError', z3.Not(z3.And(is_VRef(o.t), st.h.cls(v_a(o.t)) == CLS_DICT)), 'subscript store on non-dict')
                 o = sv_ref(v_a(o.t), Dict(None, None))
             if o.kind == 'ref' and o.cls == 'dict':
-                self.dict_set(o.t, k, v, st)
+                et = o.ty.elem if o.ty is not None else None
+                self.dict_set(o.t, k, v, st, own=(et is not None and et.kind in ('list', 'dict', 'set')))
                 return
             raise Unsupported('subscript store on %s/%s' % (o.kind, o.cls))
         raise Unsupported('assignment target ' + type(t).__name__)
@@ -225,6 +226,9 @@ class Exec(ExprMixin):
             st.assume(side)
         sa = self.reg.schema.storage(cls, attr)
         st.set_arr('f_' + sa, z3.Store(st.h.arr['f_' + sa], a, term))
+        if (cls, attr) in self.reg.schema.presence:
+            g = self.reg.schema.presence[(cls, attr)]
+            st.set_arr('f_' + g, z3.Store(st.h.arr['f_' + g], a, z3.BoolVal(True)))
         if ty.kind in ('list', 'dict', 'set') and v.kind == 'ref':
             st.set_arr('own_obj', z3.Store(st.h.arr['own_obj'], v.t, a))
             st.set_arr('own_fld', z3.Store(st.h.arr['own_fld'], v.t, z3.IntVal(field_id(attr))))
